@@ -421,7 +421,10 @@ def _method(mg, c, done):
             raise _Skip()
         sp = {"mg": lambda o: getattr(mg, name)(o["a"], axis=ax, ddof=c["ddof"], keepdims=kd),
               "np": lambda o: getattr(np, name)(o["a"], axis=ax, ddof=c["ddof"], keepdims=kd),
-              "method": lambda o: getattr(o["a"], name)(axis=ax, ddof=c["ddof"], keepdims=kd)}
+              "method": lambda o: getattr(o["a"], name)(axis=ax, ddof=c["ddof"], keepdims=kd),
+              # documented positional order of both the function and the method: (axis, ddof, keepdims)
+              "mg_positional": lambda o: getattr(mg, name)(o["a"], ax, c["ddof"], kd),
+              "method_positional": lambda o: getattr(o["a"], name)(ax, c["ddof"], kd)}
     elif name in ("cumsum", "cumprod"):
         sp = {"mg": lambda o: getattr(mg, name)(o["a"], axis=ax), "np": lambda o: getattr(np, name)(o["a"], axis=ax),
               "method": lambda o: getattr(o["a"], name)(axis=ax)}
